@@ -1,6 +1,6 @@
 use crate::diagnostic_emitter::MosResult;
 use crate::impl_request_handler;
-use crate::lsp::{to_range, LspContext, RequestHandler};
+use crate::lsp::{to_path, to_range, LspContext, RequestHandler};
 use lsp_types::request::{DocumentSymbolRequest, WorkspaceSymbol};
 use lsp_types::{
     DocumentSymbol, DocumentSymbolParams, DocumentSymbolResponse, Location, SymbolInformation,
@@ -24,7 +24,7 @@ impl RequestHandler<DocumentSymbolRequest> for DocumentSymbolRequestHandler {
         params: DocumentSymbolParams,
     ) -> MosResult<Option<DocumentSymbolResponse>> {
         if let Some(tree) = &ctx.tree {
-            let path = params.text_document.uri.to_file_path().unwrap();
+            let path = to_path(&params.text_document.uri);
             if let Some(file) = tree.try_get_file(&path) {
                 if let Some(codegen) = ctx.codegen() {
                     let emitter = DocSymEmitter {
